@@ -1,3 +1,16 @@
 (* C08 — Results do not depend on how the stream is split into reads.
    Per-dissector statements: Properties/C08_resp.v, C08_amqp.v, C08_kafka.v, C08_http.v. *)
 Require V.Properties.C08_resp V.Properties.C08_amqp V.Properties.C08_kafka V.Properties.C08_http.
+
+Require Import V.Shape.ReadSitesTie V.gen.ReadSites.
+From Coq Require Import List Bool String.
+
+(* every call through which the four dissectors take bytes from the connection (regenerated
+   from the source on every run) is a looping library call or one of the two raw reads the
+   models treat explicitly *)
+Theorem C08_read_sites : forallb site_agnostic read_sites = true.
+Proof. exact read_sites_agnostic. Qed.
+
+Theorem C08_redis_single_refill :
+  List.length (filter (fun s => let '(ext, _, _, callee) := s in String.eqb ext "redis" && prefix "r.Read(" callee) read_sites) = 1%nat.
+Proof. exact redis_single_refill. Qed.
